@@ -48,5 +48,45 @@ def wordsAux : Mode → Option Str → List Str → Str → Option (List Str)
 
 def words (s : Str) : Option (List Str) := wordsAux .bare none [] s
 
+/-- the storage hook template, seen as words separated by single blanks: literal text or one of the three
+    placeholders `%(user)s`, `%(path)s`, `%(cwd)s` (lock.py, `acquire_lock`) -/
+inductive HookTok
+  | lit (w : Str)
+  | user
+  | path
+  | cwd
+  deriving Repr, DecidableEq
+
+/-- what the request contributes: the login (may be empty), the sanitized path handed to `acquire_lock`
+    (empty unless the caller passes it), and the two configured folders -/
+structure HookEnv where
+  user : Str
+  path : Str
+  folder : Str            -- filesystem_folder
+  root : Str              -- filesystem_folder/collection-root
+  deriving Repr
+
+def anonymous : Str := "Anonymous".toList
+
+/-- the text the placeholder stands for -/
+def HookTok.value (e : HookEnv) : HookTok → Str
+  | .lit w => w
+  | .user => if e.user = [] then anonymous else e.user
+  | .path => e.root ++ e.path
+  | .cwd => e.folder
+
+/-- what is pasted into the command line: literal words as they are, placeholders through `shlex.quote` -/
+def HookTok.render (e : HookEnv) : HookTok → Str
+  | .lit w => w
+  | t => quote (t.value e)
+
+def joinBlank : List Str → Str
+  | [] => []
+  | [w] => w
+  | w :: ws => w ++ ' ' :: joinBlank ws
+
+/-- `self._hook % {"path": quote(root + path), "cwd": quote(folder), "user": quote(user or "Anonymous")}` -/
+def hookCommand (t : List HookTok) (e : HookEnv) : Str := joinBlank (t.map (HookTok.render e))
+
 end Shell
 end Radicale
